@@ -34,6 +34,7 @@ def compute_mc_paths_giles(rmse: float, vl: np.array, cl: np.array) -> np.array:
     :return: the updated number of Monte-Carlo paths for each level l
     """
     theta = THETA
+    rmse = float(rmse)  # a numpy integer scalar would square in its own type (np.int32(50000) ** 2 wraps)
     # lists and integer arrays are accepted too: the zero-cost substitution below needs a float array
     vl = np.asarray(vl, dtype=float)
     cl = np.asarray(cl, dtype=float)
